@@ -215,7 +215,7 @@ def _rank_profile(n, r):
     return [1] + [int(r)] * (d - 1) + [1] if isinstance(r, (int, float)) else list(r)
 
 
-def h_rand(ctx, kind, n, r, seed):
+def h_rand(ctx, kind, n, r, seed, ab=None):
     """Random constructors with the generator stub: shape, rank profile, every
     entry is a distinct draw of the requested distribution."""
     rp = _rank_profile(n, r)
@@ -223,7 +223,8 @@ def h_rand(ctx, kind, n, r, seed):
     if sym:
         from symtt.stubs_rng import StubGenerator
     if kind == 'rand':
-        a, b = -2., 3.
+        # (ab: other legal ranges - an end point equal to zero, both end points of one sign, integer end points)
+        a, b = ab if ab is not None else (-2., 3.)
         Y = teneva.rand(n, r, a, b, seed=seed)
     elif kind == 'rand_norm':
         Y = teneva.rand_norm(n, r, 1., 2., seed=seed)
@@ -355,6 +356,8 @@ def instances(tier):
         for n, r in [([2, 3], 2), ([2, 2, 3], [1, 2, 3, 1]), ([3, 2, 2], 1), ([2, 2, 2], 3), ([2, 3], [1, 4, 1]),
                      ([2, 2, 3, 2], 2)]:
             out.append({'func': 'h_rand', 'params': {'kind': kind, 'n': n, 'r': r, 'seed': 7}})
+    for ab in ([-1., 0.], [0., 2.], [-3., -1.], [-2, 0], [0.25, 0.5]):
+        out.append({'func': 'h_rand', 'params': {'kind': 'rand', 'n': [2, 3], 'r': 2, 'seed': 7, 'ab': ab}})
     return out
 
 
